@@ -679,6 +679,26 @@ func (r *Runner) checkNoAST(c *caseCtx, v spec.VariantStatus, o *obs.Obs, ref *r
 	if o.OK && c.entry == "" && o.End != ref.End {
 		r.mismatch(c, "C07", "end", fmt.Sprint(ref.End), fmt.Sprint(o.End), "")
 	}
+	if !o.OK && !ref.OK {
+		// ---- C11 for parsers without a tree: the furthest non-empty rule token (captures record none)
+		w := []rune(c.input)
+		r.eval("C11", ref.ErrTokNC.B != ref.ErrTokNC.E, vkey, sample)
+		wantTok := obs.Tok{Name: ref.ErrTokNC.Name, B: ref.ErrTokNC.B, E: ref.ErrTokNC.E}
+		if o.ErrTok != wantTok {
+			if !hasSwitch(v.Name) {
+				r.mismatch(c, "C11", "errtok-noast", fmt.Sprint(wantTok), fmt.Sprint(o.ErrTok), "")
+			} else if !(o.ErrTok == obs.Tok{Name: "Unknown"}) && (o.ErrTok.B == o.ErrTok.E || !ref.Completed[ri.Tok{Name: o.ErrTok.Name, B: o.ErrTok.B, E: o.ErrTok.E}]) {
+				r.mismatch(c, "C11", "errtok-weak-noast", "a non-empty token completed by the grammar on this input", fmt.Sprint(o.ErrTok), "")
+			}
+		}
+		if o.ErrPanic != "" {
+			r.mismatch(c, "C11", "error-panic", "message", "panic: "+o.ErrPanic, "")
+		} else if o.ErrTok.B >= 0 && o.ErrTok.B <= o.ErrTok.E && o.ErrTok.E <= len(w) {
+			if why := checkMessage(o.ErrMsg, o.ErrTok, w); why != "" {
+				r.mismatch(c, "C11", "message", why, strconv.Quote(o.ErrMsg), why)
+			}
+		}
+	}
 	acts, _ := eagerStr(ref.Eager, hasCap)
 	if !hasSwitch(v.Name) {
 		if join(o.T) != join(acts) {
